@@ -228,12 +228,14 @@ func (s *Stream) HandlePacket(pkt drpcwire.Packet) (err error) {
 	s.log("HANDLE", pkt.String)
 
 	if pkt.Kind == drpcwire.KindMessage {
+		drpcdebug.Point("stream.handle.beforePut", s.ctx.tr)
 		s.pbuf.Put(pkt.Data)
 		return nil
 	}
 
 	s.mu.Lock()
 	defer s.mu.Unlock()
+	drpcdebug.Point("stream.handle.mu", s.ctx.tr)
 
 	switch pkt.Kind {
 	case drpcwire.KindInvoke:
@@ -290,6 +292,7 @@ func (s *Stream) checkFinished() {
 		if s.sigs.fin.Set(nil) {
 			s.log("FIN", func() string { return "" })
 			s.ctx.sig.Set(context.Canceled)
+			drpcdebug.Point("stream.fin", s.ctx.tr)
 			if s.fin != nil {
 				s.fin <- struct{}{}
 			}
@@ -365,6 +368,7 @@ func (s *Stream) RawWrite(kind drpcwire.Kind, data []byte) (err error) {
 	defer s.checkFinished()
 	s.write.Lock()
 	defer s.write.Unlock()
+	drpcdebug.Point("stream.rawwrite.locked", s.ctx.tr)
 
 	return s.rawWriteLocked(kind, data)
 }
@@ -394,6 +398,7 @@ func (s *Stream) rawWriteLocked(kind drpcwire.Kind, data []byte) (err error) {
 		} else if fr.Done {
 			return nil
 		}
+		drpcdebug.Point("stream.write.betweenFrames", s.ctx.tr)
 	}
 }
 
@@ -402,6 +407,7 @@ func (s *Stream) RawFlush() (err error) {
 	defer s.checkFinished()
 	s.write.Lock()
 	defer s.write.Unlock()
+	drpcdebug.Point("stream.rawflush.locked", s.ctx.tr)
 
 	return s.rawFlushLocked()
 }
@@ -457,6 +463,7 @@ func (s *Stream) RawRecv() (data []byte, err error) {
 	if err != nil {
 		return nil, err
 	}
+	drpcdebug.Point("stream.rawrecv.held", s.ctx.tr)
 	data = append([]byte(nil), data...)
 	s.pbuf.Done()
 
@@ -474,6 +481,7 @@ func (s *Stream) MsgSend(msg drpc.Message, enc drpc.Encoding) (err error) {
 	defer s.checkFinished()
 	s.write.Lock()
 	defer s.write.Unlock()
+	drpcdebug.Point("stream.msgsend.locked", s.ctx.tr)
 
 	wbuf, err := drpcenc.MarshalAppend(msg, enc, s.wbuf[:0])
 	if err != nil {
@@ -486,6 +494,7 @@ func (s *Stream) MsgSend(msg drpc.Message, enc drpc.Encoding) (err error) {
 		return err
 	}
 	if !s.opts.ManualFlush {
+		drpcdebug.Point("stream.msgsend.beforeFlush", s.ctx.tr)
 		return s.rawFlushLocked()
 	}
 	return nil
@@ -505,6 +514,7 @@ func (s *Stream) MsgRecv(msg drpc.Message, enc drpc.Encoding) (err error) {
 	if err != nil {
 		return err
 	}
+	drpcdebug.Point("stream.msgrecv.held", s.ctx.tr)
 	err = enc.Unmarshal(data, msg)
 	s.pbuf.Done()
 
@@ -528,6 +538,7 @@ func (s *Stream) SendError(serr error) (err error) {
 	s.log("CALL", func() string { return fmt.Sprintf("SendError(%v)", serr) })
 
 	s.mu.Lock()
+	drpcdebug.Point("stream.senderror.mu", s.ctx.tr)
 	if s.sigs.term.IsSet() {
 		s.mu.Unlock()
 		return nil
@@ -536,10 +547,12 @@ func (s *Stream) SendError(serr error) (err error) {
 	defer s.checkFinished()
 	s.write.Lock()
 	defer s.write.Unlock()
+	drpcdebug.Point("stream.senderror.write", s.ctx.tr)
 
 	s.sigs.send.Set(io.EOF) // in this state, gRPC returns io.EOF on send.
 	s.terminate(termError)
 	s.mu.Unlock()
+	drpcdebug.Point("stream.senderror.emit", s.ctx.tr)
 
 	return s.checkCancelError(s.sendPacketLocked(drpcwire.KindError, false, drpcwire.MarshalError(serr)))
 }
@@ -554,6 +567,7 @@ func (s *Stream) SendCancel(err error) (busy bool, _ error) {
 	if !s.mu.TryLock() { // if we can't inspect if writes are happening, hard cancel.
 		return true, nil
 	}
+	drpcdebug.Point("stream.sendcancel.mu", s.ctx.tr)
 
 	if !s.write.TryLock() { // if writes are happening, then we have to do a hard cancel.
 		s.mu.Unlock()
@@ -561,6 +575,7 @@ func (s *Stream) SendCancel(err error) (busy bool, _ error) {
 	}
 	defer s.checkFinished()
 	defer s.write.Unlock()
+	drpcdebug.Point("stream.sendcancel.write", s.ctx.tr)
 
 	if s.sigs.term.IsSet() {
 		s.mu.Unlock()
@@ -580,6 +595,7 @@ func (s *Stream) Close() (err error) {
 	s.log("CALL", func() string { return "Close()" })
 
 	s.mu.Lock()
+	drpcdebug.Point("stream.close.mu", s.ctx.tr)
 	if s.sigs.term.IsSet() {
 		s.mu.Unlock()
 		return nil
@@ -588,9 +604,11 @@ func (s *Stream) Close() (err error) {
 	defer s.checkFinished()
 	s.write.Lock()
 	defer s.write.Unlock()
+	drpcdebug.Point("stream.close.write", s.ctx.tr)
 
 	s.terminate(termClosed)
 	s.mu.Unlock()
+	drpcdebug.Point("stream.close.emit", s.ctx.tr)
 
 	return s.checkCancelError(s.sendPacketLocked(drpcwire.KindClose, false, nil))
 }
@@ -602,6 +620,7 @@ func (s *Stream) CloseSend() (err error) {
 	s.log("CALL", func() string { return "CloseSend()" })
 
 	s.mu.Lock()
+	drpcdebug.Point("stream.closesend.mu", s.ctx.tr)
 	if s.sigs.send.IsSet() || s.sigs.term.IsSet() {
 		s.mu.Unlock()
 		return nil
@@ -610,10 +629,12 @@ func (s *Stream) CloseSend() (err error) {
 	defer s.checkFinished()
 	s.write.Lock()
 	defer s.write.Unlock()
+	drpcdebug.Point("stream.closesend.write", s.ctx.tr)
 
 	s.sigs.send.Set(sendClosed)
 	s.terminateIfBothClosed()
 	s.mu.Unlock()
+	drpcdebug.Point("stream.closesend.emit", s.ctx.tr)
 
 	return s.checkCancelError(s.sendPacketLocked(drpcwire.KindCloseSend, false, nil))
 }
@@ -623,9 +644,11 @@ func (s *Stream) CloseSend() (err error) {
 // finished, and returns a boolean indicating if that was the case.
 func (s *Stream) Cancel(err error) bool {
 	s.log("CALL", func() string { return fmt.Sprintf("Cancel(%v)", err) })
+	drpcdebug.Point("stream.cancel.enter", s.ctx.tr)
 
 	s.mu.Lock()
 	defer s.mu.Unlock()
+	drpcdebug.Point("stream.cancel.mu", s.ctx.tr)
 
 	if s.IsFinished() {
 		return true
